@@ -33,6 +33,8 @@ CFGS = [
     dict(name='level-control', H=H, dur=3 * H, pauses=[2 * H], pickle=False, controls=[dict(kind='level', target='P2', rel='gt', value=0)]),
     dict(name='tank-min-isolates', H=H, dur=4 * H, pauses=[2 * H], pickle=False, dead_end=True, tank_q=-0.02, controls=[]),
     dict(name='tank-min-crossed-right-after-the-pause', H=H, dur=3 * H, pauses=[H], pickle=False, dead_end=True, tank_q=-0.02, controls=[]),
+    # the head pump lifts 50 m; its curve is swapped from one with 40 m shut-off head to one with 80 m by a control (symbolic instant)
+    dict(name='pump-curve-swap', H=H, dur=3 * H, pauses=[2 * H], pickle=False, head_pump=True, heads={'J1': 110.0}, controls=[dict(kind='pump_curve', target='PH')]),
     dict(name='isolate-reconnect', H=H, dur=3 * H, pauses=[H], pickle=False, dead_end=True, controls=[dict(kind='status', target='P4', value=0), dict(kind='status', target='P4', value=1)]),
     dict(name='setting+clock', H=H, dur=2 * H, pauses=[H], pickle=True, clock=True, controls=[dict(kind='setting', target='VT', value='sym'), dict(kind='status', target='P2', value=0, clock=True)]),
 ]
@@ -63,7 +65,7 @@ def run_paused(plane, wn, cfg, do_pickle):
 def check_cfg(rep, cfg):
     tag = cfg['name']
     tq = cfg.get('tank_q', runkit.TANK_Q)
-    plane = ctrlplane.Plane(runkit.policy(tq))
+    plane = ctrlplane.Plane(runkit.policy(tq, cfg.get('heads')))
     with ctrlplane.installed(plane):
         def harness(c):
             V = SymVars(c)
@@ -131,6 +133,10 @@ def replay_pause(i):
             return runkit.frames_snapshot(wntr.sim.WNTRSimulator(w).run_sim())
     def build():
         wn = runkit.build(V, cfg)
+        for nn, h in (cfg.get('heads') or {}).items():
+            # realise the head the stub gives this node: a reservoir at that head right next to it
+            wn.add_reservoir('RH_' + nn, base_head=float(h))
+            wn.add_pipe('PH_' + nn, 'RH_' + nn, nn, length=1.0, diameter=2.0, roughness=140.0)
         if cfg.get('dead_end'):
             # realise the stub's tank flow with real hydraulics: J3 hangs on the tank alone and draws 0.02 from it
             for ln in ('VT', 'PP'):
